@@ -64,6 +64,8 @@ func renderFile(f string, imports []string) string {
 		}
 	}
 	sb.WriteString("}\n")
+	// a second message nobody refers to: a type filter of another plugin that keeps M would drop it
+	sb.WriteString("message N" + f + " {\n  string id = 1;\n}\n")
 	return sb.String()
 }
 
